@@ -6,6 +6,7 @@ package evmcheck
 import (
 	"fmt"
 	"sort"
+	"strings"
 
 	"verif/sim"
 
@@ -157,6 +158,11 @@ func CheckCase(t Fataler, base *sim.EvmBase, c *sim.EvmCase) *sim.Proxy {
 	}
 	opt := sim.DumpOptions{}
 	if diff := sim.DumpState(ref, addrs, &p.Keys, opt).Diff(sim.DumpState(first.AM, addrs, &p.Keys, opt)); diff != "" {
+		if knownRecreateUndo(diff, p) {
+			// listed finding undo-code-after-recreate: the journal is right (compared above), the real state lost the code
+			sim.KnownHit(KnownUnit, "undo-code-after-recreate", strings.Join(c.Describe(), " "))
+			return p
+		}
 		t.Fatalf("state differs from a replay of the surviving operations (- reference, + real):\n%s\ncase: %v", diff, c.Describe())
 	}
 	if diff := sim.DumpState(second.AM, addrs, &p.Keys, opt).Diff(sim.DumpState(first.AM, addrs, &p.Keys, opt)); diff != "" {
@@ -195,3 +201,35 @@ func equalLines(a, b []string) bool {
 	return true
 }
 
+// KnownUnit is the unit name under which known-finding hits of this package are reported (set by the test package).
+var KnownUnit = "programs"
+
+// knownRecreateUndo is the matcher of the known finding undo-code-after-recreate. A contract that CREATEs twice in one
+// transaction gets the same address both times (address = f(creator, transaction hash); the collision test only knows accounts
+// of earlier blocks), so the EVM sets code on an account that holds code already. The code log keeps no previous value:
+// undoing the second creation (its frame fails later) clears the code instead of restoring the first. The matcher explains a
+// mismatch only if every differing line is a code / code hash line of an address on which the recorder saw code being set
+// over existing code, and the real state is the one that has no code.
+func knownRecreateUndo(diff string, p *sim.Proxy) bool {
+	over := map[string]bool{}
+	for a := range p.CodeOverwritten {
+		over[a.Hex()] = true
+	}
+	if len(over) == 0 {
+		return false
+	}
+	for _, line := range strings.Split(diff, "\n") {
+		parts := strings.SplitN(line, "  ", 2)
+		if len(parts) != 2 || !over[parts[0]] {
+			return false
+		}
+		f := parts[1]
+		switch {
+		case strings.HasPrefix(f, "- codehash=") || strings.HasPrefix(f, "- code="):
+		case f == "+ codehash=none" || strings.HasPrefix(f, "+ code= "):
+		default:
+			return false
+		}
+	}
+	return true
+}
